@@ -25,6 +25,20 @@ info:
 servers:
 - url: https://example.org/v1
   description: production
+- url: https://example.org/v2/
+  description: with a trailing slash
+- url: /
+- url: '{scheme}://example.org:{port}/base/'
+  variables:
+    scheme:
+      enum:
+      - https
+      - http
+      default: https
+      description: the scheme
+    port:
+      default: '443'
+      description: the port
 paths:
   x-paths-ext: inside the paths object
   /from-base:
